@@ -44,6 +44,18 @@ type WithHidden struct {
 	C string
 }
 
+// NamedAnyMap: a named (typed on the wire) map type with interface keys
+type NamedAnyMap map[interface{}]interface{}
+
+func (NamedAnyMap) HessianCodecName() string { return "test.AnyMap" }
+
+// CarrierM holds the named map in a TYPED field (so that extraction registers its wire name)
+type CarrierM struct {
+	A int32
+	M NamedAnyMap
+	Z string
+}
+
 type BadChanStruct struct {
 	N int32
 	C chan int
@@ -169,6 +181,27 @@ func badPositions() []badPos {
 			}
 			l[288].X = b
 			return l
+		}},
+		{"inside-self-containing-list", false, func(b interface{}) interface{} {
+			// the container holds itself through an interface slot: anything that walks or prints it
+			// while reporting the failure must cope with the cycle
+			l := make([]interface{}, 3)
+			l[0], l[1], l[2] = int32(1), l, b
+			return l
+		}},
+		{"inside-self-containing-map", false, func(b interface{}) interface{} {
+			m := map[string]interface{}{"v": b}
+			m["self"] = m
+			return []interface{}{m}
+		}},
+		{"key-of-named-map", true, func(b interface{}) interface{} {
+			return &CarrierM{A: 1, M: NamedAnyMap{b: int32(1), "x": int32(2), "y": int32(3)}, Z: "z"}
+		}},
+		{"value-of-named-map", false, func(b interface{}) interface{} {
+			return &CarrierM{A: 1, M: NamedAnyMap{"k": b, "x": int32(2), "y": int32(3)}, Z: "z"}
+		}},
+		{"key-of-named-map@top", true, func(b interface{}) interface{} {
+			return NamedAnyMap{b: int32(1), "x": int32(2)}
 		}},
 		{"inside-zoo-slice", false, func(b interface{}) interface{} {
 			return &zoo.SlIface{V: []interface{}{"a", b, int32(2)}}
